@@ -79,7 +79,16 @@ impl<P, T> Index<usize> for Table<P, T> {
     fn index(&self, index: usize) -> &Self::Output {
         #[cfg(feature = "verif-hooks")]
         crate::verif::on_access(self, index, false);
-        &self.as_ref()[index]
+        // Only borrow the requested node. Going through the slice of all nodes would create a shared
+        // reference that overlaps the mutable references to *other* nodes that mutable iterators and
+        // views have handed out (see `Table::get_mut`).
+        let nodes = self.as_ref();
+        let len = nodes.len();
+        if index >= len {
+            panic!("index out of bounds: the len is {len} but the index is {index}");
+        }
+        // Safety: `index` is in bounds, and we own an immutable reference to the table.
+        unsafe { &*nodes.as_ptr().add(index) }
     }
 }
 
